@@ -42,6 +42,41 @@ type Interp struct {
 	fds   *file.RefreshableFileDataSource
 	fmod  string
 	count *int64
+	// the watcher goroutine stops looking after a removal
+	removed bool
+}
+
+// writeInPlace replaces the file's content without ever making it shorter than a prefix of the new content followed
+// by old bytes (one write, then a truncate only when shrinking), so that whatever the watcher reads in between is
+// either the final content or undecodable.  Reports whether the watcher is expected to call the handler.
+func (it *Interp) writeInPlace(b []byte) bool {
+	if it.removed {
+		_ = os.WriteFile(it.path, b, 0o644) // re-created: nobody is watching any more
+		return false
+	}
+	st, err := os.Stat(it.path)
+	if err != nil {
+		panic(err)
+	}
+	f, err := os.OpenFile(it.path, os.O_WRONLY, 0o644)
+	if err != nil {
+		panic(err)
+	}
+	defer f.Close()
+	events := false
+	if len(b) > 0 {
+		if _, err := f.Write(b); err != nil {
+			panic(err)
+		}
+		events = true
+	}
+	if st.Size() > int64(len(b)) {
+		if err := f.Truncate(int64(len(b))); err != nil {
+			panic(err)
+		}
+		events = true
+	}
+	return events
 }
 
 func New() vh.Interp {
@@ -262,7 +297,7 @@ func (it *Interp) Step(t []string, op string) string {
 		if err != nil {
 			panic(err)
 		}
-		it.dir, it.path, it.fmod = dir, filepath.Join(dir, "rules.json"), t[1]
+		it.dir, it.path, it.fmod, it.removed = dir, filepath.Join(dir, "rules.json"), t[1], false
 		if t[2] != "none" {
 			if err := os.WriteFile(it.path, payload(t[2]), 0o644); err != nil {
 				panic(err)
@@ -273,20 +308,26 @@ func (it *Interp) Step(t []string, op string) string {
 		h := newHandler(t[1]).(*datasource.DefaultPropertyHandler)
 		it.fds = file.NewFileDataSource(it.path, counting{h, it.count})
 		if err := it.fds.Initialize(); err != nil {
+			// no watcher goroutine exists: Close() would block for ever on the unbuffered closeChan
+			it.fds = nil
 			return "err " + rules(t[1])
 		}
 		return "ok " + rules(t[1])
 	case "file.write":
-		before := atomic.LoadInt64(it.count)
-		if err := os.WriteFile(it.path, payload(t[1]), 0o644); err != nil {
-			panic(err)
+		if it.fds == nil {
+			return rules(it.fmod)
 		}
-		it.settle(before, true)
+		before := atomic.LoadInt64(it.count)
+		it.settle(before, it.writeInPlace(payload(t[1])))
 		return rules(it.fmod)
 	case "file.remove":
+		if it.fds == nil {
+			return rules(it.fmod)
+		}
 		before := atomic.LoadInt64(it.count)
-		_ = os.Remove(it.path)
-		it.settle(before, true)
+		err := os.Remove(it.path)
+		it.settle(before, err == nil && !it.removed)
+		it.removed = true
 		return rules(it.fmod)
 	case "file.close":
 		it.closeFile()
